@@ -229,7 +229,7 @@ Section NoErr.
       + (* ACfb *)
         destruct b; [apply acts_legal in Ha; discriminate|].
         unfold ask. cbn [oracle emit]. destruct (oracle s) as [|r rest0] eqn:Eo; [exact I|].
-        destruct (DI_ask ECfBarrier s r rest0 Hdi Eo) as (D1 & _). cbn. split; assumption.
+        destruct (DI_ask ECfBarrier s r rest0 Hdi Eo) as (D1 & _). destruct r; try reflexivity. cbn. split; assumption.
       + apply (IH b PLocalProgress s). split; assumption.
       + destruct b; [apply acts_legal in Ha; discriminate|]. apply (IH false (PWaitUntil f) s). split; assumption.
       + cbn. split; assumption.
@@ -239,7 +239,7 @@ Section NoErr.
       + cbn. split; assumption.
       + destruct b; [apply acts_legal in Ha; discriminate|].
         unfold ask. cbn [oracle emit]. destruct (oracle s) as [|r rest0] eqn:Eo; [exact I|].
-        destruct (DI_ask EColl s r rest0 Hdi Eo) as (D1 & _). cbn. split; assumption.
+        destruct (DI_ask EColl s r rest0 Hdi Eo) as (D1 & _). destruct r; try reflexivity. cbn. split; assumption.
     - (* PAsync *)
       intros Hm (Hq & Hdi). cbn [run].
       eapply resE_bind with (P1 := pre0 b).
